@@ -378,6 +378,7 @@ func sanitize(n string) string {
 var curResultType types.Type
 
 func (e *Engine) traceIntrinsic(s *State, name string, args []Val) (Val, bool) {
+	e.heapTouch++ // what a trace helper returns depends on the path: a spec function that asks must not be memoised
 	idx := func(v Val) int {
 		t := s.res(v.(Term))
 		if t.C == nil {
